@@ -207,7 +207,7 @@ def run_one(mu):
         except SyntaxError as e:
             return dict(mu, outcome="nocompile", detail=str(e))
         open(p, "w").write(new_src)
-        t = subprocess.run(["/venv/bin/python", "-m", "pytest", "-q", "-p", "no:cacheprovider", "--timeout=300", "-x",
+        t = subprocess.run(["/venv/bin/python", "-m", "pytest", "-q", "-p", "no:cacheprovider", "--timeout=300",
                             "--continue-on-collection-errors", "-n", str(_W["tjobs"])], cwd=repo, capture_output=True, text=True)
         tail = t.stdout.strip().splitlines()[-1] if t.stdout.strip() else ""
         if "1466 passed" not in tail or "failed" in tail:
